@@ -124,6 +124,7 @@ def onEvent (cfg : Cfg) (l : Line) (s : St) : Option (List St) :=
   | "unpark" => some [s]
   | "park" => do
     let p ← l.get? "p"
+    if !(parkPoints.contains p || p == "cb") then none else
     let idOk (r : Item Int Unit) : Bool := l.nat? "id" == some r.id
     let isNone := l.get? "none" == some "1"
     let keep : Bool :=
